@@ -342,7 +342,7 @@ def jobs(tier, seed):
     js += seq_jobs(4, weight=6, name="seqreal")
     for i in range(len(REAL_SCEN) - (1 if tier == "quick" else 0)):
         js.append({"name": f"concurrent-real/{i}", "part": "concurcase", "idx": i, "curve": None, "weight": 6})
-    for i in range(2):
+    for i in range(3):
         js.append({"name": f"interrupted-real/{i}", "part": "interrupted", "idx": i, "curve": None, "weight": 5})
     return js
 
@@ -363,8 +363,13 @@ def run_job(job):
         ops = [o for o in seq_ops(dict(job, part="interrupted", shard=[0, 1]))]
         probes = ops if INTERRUPT_PROBES is None else [ops[i] for i in INTERRUPT_PROBES]
         if job["name"].startswith("interrupted-real"):
+            real_files = ("bits/utils.py", "bits/pem.py", "bits/base58.py", "bits/keys.py")
+            if job["idx"] == 2:
+                # a private-key PEM of one key completes, the private-key PEM of ANOTHER key is interrupted at every line of the
+                # container code (the scalar multiplication itself is one step), then both again
+                return run_interrupt_job(job, [None, None, ops[0]], [ops[0], ops[5], ops[1]], run_case, real_files, pre=[ops[5]])
             # a public-key PEM / a WIF round trip interrupted at every line, then every container operation
-            return run_interrupt_job(job, [ops[1], ops[3]], ops, run_case, ("bits/utils.py", "bits/pem.py", "bits/base58.py", "bits/keys.py"))
+            return run_interrupt_job(job, [ops[1], ops[3]], ops, run_case, real_files)
         return run_interrupt_job(job, [ops[i] for i in INTERRUPT_X], probes, run_case, CONCUR_FILES)
     if job["part"] == "seq":
         from vf.runner import run_seq_job
